@@ -1,5 +1,6 @@
 // C01: write-then-read round trip is lossless for every format and writer option.
 #include "gen.hpp"
+#include "pbfcheck.hpp"
 
 #include <osmium/io/any_input.hpp>
 #include <osmium/io/any_output.hpp>
@@ -231,6 +232,17 @@ static void execute(const Plan& p) {
         vp::fail("writer-threw", "Writer reported an error for data inside the format's domain: " + writer_msg + " | " + show_opts(o));
     }
 
+    // --- second oracle on the bytes: the file is within the format's own limits (independent framing parser)
+    if (o.fmt == F_PBF) {
+        pbfcheck::Report rep = pbfcheck::check(slurp(path));
+        if (!rep.error.empty()) {
+            ::unlink(path.c_str());
+            vp::fail("pbf-outside-format-limits", "the Writer produced a PBF file without error that is outside the format's limits: " + rep.error + " | " + show_opts(o));
+        }
+        vp::count("pbf_files_checked_against_limits");
+        if (rep.max_entities >= 7999) vp::count("pbf_block_with_7999_or_more_entities");
+        if (rep.max_raw > 16 * 1024 * 1024) vp::count("pbf_block_over_16MiB");
+    }
     // --- read back
     std::vector<Obj> got;
     std::string got_generator;
